@@ -6,6 +6,22 @@ CHECKS = {
  "C17": dict(text="Lean theorems T17.1-5 (complete/ring/path/random_tree/random_connected_k are symmetric simple connected graphs over exactly the given nodes with the defining edge count, for every node list, every tree and every pick sequence; out-of-range k rejected; the executable tree test is sound) about a hand-written model of network.py, tied to the code by differential execution on every run with networkx's tree and random.choice recorded; a model-independent graph oracle judges every real output.",
              note="Trusted: Lean kernel + propext/Classical.choice/Quot.sound; the model Topo.lean mirrors network.py by hand and is compared with the code on a few hundred cases per run (graph-level); networkx's generator is treated as an environment whose output is checked to be a tree by a verified test.",
              technique="Lean 4 proof (induction over node lists / edge lists) + differential correspondence", ref="4 C17"),
+
+ "C13": dict(text="Lean theorems (56): every gate row maps to its conjugate sign included (gate1_row/gate2_row); the conjugation tables equal matrix conjugation over the Gaussian integers (conj1/conj2_is_matrix_conjugation, decide); group-level 'resulting group is exactly the conjugated group' (gate1_group/gate2_group), Valid and ValidMax preserved; tensor/add_qubit give the product group in order; Gaussian elimination preserves the group and yields a unique reduced form, so __eq__ and contains are sound AND complete w.r.t. the group (stEq_sound/complete, contains_sound/complete/neg). Model Stab.lean mirrors stabilizer_states.py statement by statement and is tied on every run: all signed rows and all 1146 states on <=3 qubits x every gate/position/pair exhaustively, random states to 8 (thorough 10) qubits, literal comparison + group-level fallback; a NumPy state-vector oracle independent of the model judges every real execution.",
+             note="Trusted: Lean kernel + propext/Classical.choice/Quot.sound; that an n-qubit Pauli string denotes the Kronecker product of its letters and a gate on qubit j acts as I..U..I (standard embedding; cross-checked numerically by the oracle); model tied by differential execution.",
+             technique="Lean 4 proof (Pauli group algebra, induction over generator lists, RREF uniqueness) + exhaustive differential correspondence on <=3 qubits", ref="4 C13"),
+ "C14": dict(text="Lean theorems (17) for every ValidMax state (and reachable_validMax: every state the engine can produce is ValidMax): measure refuses exactly bad positions; the reported outcome has non-zero Born probability; random branch iff some generator has X/Y at the qubit, then outcome = coin and both occur; otherwise the outcome is the certain one and coin-independent; in-place post-group = <(-1)^o Z_j> . Comm_j(G) exactly; destructive post-group = its restriction to the remaining qubits in order; re-measuring repeats. Model measure in Stab.lean mirrors the code branch by branch; tie: every state on <=3 qubits x position x mode x coin exhaustively + random to 8 qubits + engine wrappers; NumPy projector oracle.",
+             note="Trusted: as C13; uniformity of randint is assumed (the theorem is about the decision given the coin).",
+             technique="Lean 4 proof (group-level collapse algebra over the Gaussian-elimination interface) + exhaustive differential correspondence on <=3 qubits", ref="4 C14"),
+ "C16": dict(text="Lean theorems (22) over all edit histories (add/remove node, add/remove network, reset, reload) with an arbitrary per-edit OS port oracle: endpoints unique; removed node gone from nodes and topology; JSON round trip exact; node id/name lookups are mutual inverses and identical for every participant/role; refusal characterisations; counterexample theorems for the three repaired defects. Model Config.lean tied to NetworksConfigConstructor / SocketsConfig / SimulaQronNetworkInfo by random edit scripts with forced port clashes and a scripted probe; model-independent oracle on the real objects.",
+             note="Trusted: Lean kernel + standard axioms; host equality = equality of configured strings; merging two files into one constructor is outside the histories.",
+             technique="Lean 4 proof (invariant by induction over edit histories, insertion-sort canonicity) + differential correspondence", ref="4 C16"),
+ "C18": dict(text="Lean theorems (15): read_after_write, reset_restores_defaults, user_precedence and the single-writer history theorem by induction over any set/reset/reload/restart sequence, any pre-existing store and any user file; the default table is regenerated from settings.py (AST) on every run and the theorems re-checked on it. Tie: the real Config class with redirected files plus un-patched end-to-end runs; a fresh interpreter reads every key after every step.",
+             note="Trusted: Lean kernel + propext/Quot.sound; AST translator of the default table; keys set by the user file are exempt as in the statement (the leak of user values into the store is modelled and reported as a note).",
+             technique="Lean 4 proof (single-writer invariant by induction) + AST-generated facts + differential correspondence across processes", ref="4 C18"),
+ "C19": dict(text="Lean theorems (16 + 12 generated obligations): noise off => exactly the requested engine call for any clock/draw/history; thresholds over any ordered ring (X iff x<p, Y iff p<=x<2p, Z iff 2p<=x<3p, none otherwise; the intervals partition [0,1) with lengths p,p,p,1-3p); rate (1-exp(-t/T1))/4 in [0,1/4) over Real.exp; only the qubit's own position is touched; every operation method applies noise first (decide over a table regenerated from quantum.py). Tie: real simulatedQubit on a real stabilizer register with time/random scripted, draws at the float thresholds.",
+             note="Trusted: Lean kernel + standard axioms; floating-point rounding of np.exp beyond a 1-ulp comparison; 'operation on a qubit' = a method invoked on that simulated qubit (control side of two-qubit gates).",
+             technique="Lean 4 proof (order arithmetic, Real.exp bounds) + AST-generated call table + differential correspondence", ref="4 C19"),
 }
 PENDING = {}
 def main():
